@@ -246,7 +246,7 @@ fn op_strategy() -> BoxedStrategy<Op> {
     prop_oneof![
         5 => (0u8..6, 0u8..6).prop_map(|(a, b)| Op::Connect(a, b)),
         2 => (0u8..6).prop_map(Op::Disconnect),
-        2 => (0u8..6, [gen::mostly_moderate_any_finite(), gen::mostly_moderate_any_finite(), gen::mostly_moderate_any_finite()], t.clone()).prop_map(|(a, v, t)| Op::SetState(a, v, t)),
+        2 => (0u8..6, prop_oneof![3 => [gen::mostly_moderate_any_finite(), gen::mostly_moderate_any_finite(), gen::mostly_moderate_any_finite()].boxed(), 2 => proptest::sample::select(vec![[1.5f32, -2.0, 0.25], [0.0, 0.0, 0.0], [-0.0, 0.0, 0.0], [3.0e38, 3.0e38, -3.0e38], [1.5, -2.0, 0.5]]).boxed()], t.clone()).prop_map(|(a, v, t)| Op::SetState(a, v, t)),
         2 => (0u8..6, 0u8..3, gen::mostly_moderate_any_finite(), t).prop_map(|(a, k, v, t)| Op::SetCommand(a, k, v, t)),
     ]
     .boxed()
